@@ -250,4 +250,7 @@ func init() {
 	register("C15", newC15)
 	register("C16", newC16)
 	register("C17", newC17)
+	register("C11", newC11)
+	register("C12", newC12)
+	register("C08", newC08)
 }
